@@ -380,6 +380,8 @@ pub fn judge_exec(m: &dyn Model, u: &Unit, fire_at: usize, primal: Option<isize>
     let tc = if u.construct == u.run { "same-count" } else if u.run > u.construct { "more-threads-than-constructed" } else { "fewer-threads-than-constructed" };
     if e.deadlock {
         f.push(Finding { prop: "C04", sig: format!("par:deadlock:{}{}", tc, if e.crashed.is_empty() { "" } else { ":after-worker-crash" }), what: format!("no runnable worker while some worker is parked on the condvar (statuses {}; crashed workers {:?})", e.statuses, e.crashed) });
+        // an uninterrupted run which never returns does not report the optimum either
+        if fire_at == usize::MAX && primal.is_none() && u.construct == u.run { f.push(Finding { prop: "C03", sig: "par:no-result:deadlock".to_string(), what: format!("maximize() never returns under this interleaving: no runnable worker while some worker is parked (statuses {})", e.statuses) }); }
         return f;
     }
     if e.hang { f.push(Finding { prop: "C04", sig: format!("par:hang:{}", tc), what: format!("a worker did not reach its next scheduling point within 20 s (statuses {})", e.statuses) }); return f; }
@@ -817,10 +819,10 @@ pub fn c02_parallel_part(rep: &Reporter) -> (Value, bool) {
     units.retain(|u| u.run >= 2);
     if !th { units.retain(|u| u.run == 2); }
     units.extend(units_c05(th).into_iter().filter(|u| u.run == 2));
-    part(rep, "C02", units, 30.0, 900.0)
+    part(rep, "C02", units, 22.0, 900.0)
 }
-pub fn c05_parallel_part(rep: &Reporter) -> (Value, bool) { part(rep, "C05", units_c05(rep.thorough()), 35.0, 1200.0) }
-pub fn c09_parallel_part(rep: &Reporter) -> (Value, bool) { part(rep, "C09", units_c09(rep.thorough()), 30.0, 900.0) }
+pub fn c05_parallel_part(rep: &Reporter) -> (Value, bool) { part(rep, "C05", units_c05(rep.thorough()), 30.0, 1200.0) }
+pub fn c09_parallel_part(rep: &Reporter) -> (Value, bool) { part(rep, "C09", units_c09(rep.thorough()), 25.0, 900.0) }
 pub fn c15_parallel_part(rep: &Reporter) -> (Value, bool) {
     let th = rep.thorough();
     let k = if th { 5 } else { 2 };
